@@ -1,4 +1,5 @@
 import MicroHttp.Props.C15
+import MicroHttp.Props.C15Fold
 #print axioms MicroHttp.C15.name_case_insensitive
 #print axioms MicroHttp.C15.name_recognised
 #print axioms MicroHttp.C15.trim_padding
@@ -18,3 +19,7 @@ import MicroHttp.Props.C15
 #print axioms MicroHttp.C15.block_eq_lines
 #print axioms MicroHttp.C15.content_length_last_wins
 #print axioms MicroHttp.C15.expect_any
+#print axioms MicroHttp.C15.accept_last_wins
+#print axioms MicroHttp.C15.chunked_any
+#print axioms MicroHttp.C15.custom_last_wins
+#print axioms MicroHttp.C15.untouched_fields
